@@ -21,7 +21,7 @@ EXPLANATION = (
     'last column. '
     '(D6) a second factorization on the same object (every set_shift of the dense wrapper) sees nothing of the first: compute() '
     'overwrites as a whole the permutation, the interchange list, the column pointers and the status before reading them (shared with C06). '
-    'Does NOT decide the residual bound of solve(), the agreement of lower/upper results to rounding, or the pivoting strategy.')
+    'solve_inplace follows the block structure the factorization recorded: the sign string of the permutation array is in (P | NN)* (every writer tabulated; the factorization loop advances by the block it marked), each sign-directed scan reads its own position in every iteration, takes one extra step in the negative branch and starts at a block boundary; the compressed interchange list is rebuilt from scratch by every compute(). Does NOT decide the residual bound of solve(), the agreement of lower/upper results to rounding, or the pivoting strategy.')
 ASSUMPTIONS = ['exact comparison with zero is the documented singularity test']
 
 
@@ -495,3 +495,9 @@ def run(ctx):
     pivot_candidate_tested(ctx)
     callers_check_status(ctx)
     copy_data_triangle(ctx)
+    # the solve applies the block structure the factorization recorded: sign string of the permutation array in (P | NN)*,
+    # and every sign-directed scan of solve_inplace meets it aligned (rules/blockscan.py; the index proofs built on it are C13-D15)
+    from . import blockscan
+    blockscan.writers(ctx, 'solve-follows-recorded-block-structure')
+    blockscan.compressed_list(ctx, 'solve-follows-recorded-block-structure')
+    blockscan.readers(ctx, None, 'solve-follows-recorded-block-structure', discipline_only=True)
